@@ -59,6 +59,10 @@ type Attr struct {
 	Tag        int    `json:"tag,omitempty"` // gRPC field number (Field)
 	// Sec marks a credential attribute: "username", "password", "apikey:<scheme>", "token", "accesstoken"
 	Sec string `json:"sec,omitempty"`
+	// Inherit: the attribute is declared by name only (Attribute("name")) inside a type that has
+	// a Reference: type, validations and default come from the attribute of the same name of the
+	// referenced type (T is nil in the Spec; Spec.AllAttrs resolves it).
+	Inherit bool `json:"inherit,omitempty"`
 }
 
 // View is a result type view: the attribute names it contains, and for attributes that are
